@@ -3,6 +3,7 @@
 package nodes
 
 import (
+	"bytes"
 	"fmt"
 
 	"github.com/ipfs/go-cid"
@@ -261,6 +262,21 @@ func prebuilt(v val.V, p *Prog) (datamodel.Node, error) {
 	return buildNoForeignRoot(v, sub, np)
 }
 
+// shortReads is a ReadSeeker whose reads return 1, 2, 4, 5, 1, … bytes.
+type shortReads struct {
+	*bytes.Reader
+	i int
+}
+
+func (r *shortReads) Read(p []byte) (int, error) {
+	n := []int{1, 2, 4, 5}[r.i%4]
+	r.i++
+	if n < len(p) {
+		p = p[:n]
+	}
+	return r.Reader.Read(p)
+}
+
 // Assemble writes v into na.
 func Assemble(na datamodel.NodeAssembler, v val.V, p *Prog, depth int) error {
 	return assemble(na, v, p, depth, true)
@@ -300,6 +316,12 @@ func assemble(na datamodel.NodeAssembler, v val.V, p *Prog, depth int, foreign b
 	case val.String:
 		return na.AssignString(v.S)
 	case val.Bytes:
+		if len(v.S) > 0 && p.Next(8) == 6 {
+			// the bytes held by a reader-backed node (a LargeBytesNode) whose reader hands out short reads of
+			// 1, 2, 4 and 5 bytes in turn — legal for an io.Reader, and what a chunked source does
+			p.note("assignnode-readerbytes")
+			return na.AssignNode(basicnode.NewBytesFromReader(&shortReads{Reader: bytes.NewReader([]byte(v.S))}))
+		}
 		// the caller-owned slice is a private copy, never written afterwards
 		return na.AssignBytes([]byte(v.S))
 	case val.Link:
